@@ -77,8 +77,53 @@ def flo_need(nd):
     return "%s %s %s" % ("elapsed" if nd[0] == "E" else "recurred", CMPS[nd[1]], nd[2])
 
 
+def instances(case):
+    """where the timed framer runs: [(framer name as built, start tick, number of observed ticks)].
+    place = {"kind": "active"}                                  the framer itself is scheduled (default)
+          | {"kind": "aux", "host": [D0, …], "at": i}           `aux rd` in frame h<i> of a host framer
+          | {"kind": "clone", "host": [D0, …], "tags": [[tag, i], …]}   `framer rd be moot`, `aux rd as <tag>` in h<i>
+    host frame h<i> hands over to h<i+1> after D_i ticks (`go next if recurred >= D_i`)."""
+    n = case["nticks"]
+    place = case.get("place") or {"kind": "active"}
+    if place["kind"] == "active":
+        return [("rd", 0, n)]
+    starts = [0]
+    for d in place["host"]:
+        starts.append(starts[-1] + max(1, d))
+    starts.append(max(n, starts[-1]))          # the last host frame lasts to the end
+
+    def span(i):
+        a = min(starts[i], n)
+        b = min(starts[i + 1], n) if i + 1 < len(place["host"]) + 1 else n
+        return a, max(0, b - a)
+    if place["kind"] == "aux":
+        a, c = span(place["at"])
+        return [("rd", a, c)]
+    out = []
+    for tag, i in place["tags"]:
+        a, c = span(i)
+        out.append(("boss_" + tag, a, c))
+    return out
+
+
 def flo_script(case):
-    L = ["house h", "", "  framer rd be active first F0"]
+    place = case.get("place") or {"kind": "active"}
+    L = ["house h", ""]
+    if place["kind"] != "active":
+        L.append("  framer boss be active first h0")
+        nh = len(place["host"]) + 1
+        for i in range(nh):
+            L.append("    frame h%d" % i)
+            if place["kind"] == "aux" and place["at"] == i:
+                L.append("      aux rd")
+            if place["kind"] == "clone":
+                for tag, j in place["tags"]:
+                    if j == i:
+                        L.append("      aux rd as %s" % tag)
+            if i + 1 < nh:
+                L.append("      go next if recurred >= %d" % place["host"][i])
+        L.append("")
+    L.append("  framer rd be %s first F0" % {"active": "active", "aux": "aux", "clone": "moot"}[place["kind"]])
     for i, f in enumerate(case["frames"]):
         L.append("    frame F%d%s" % (i, "" if fr_over(f) is None else " in F%d" % fr_over(f)))
         for v in fr_verbs(f):
@@ -94,8 +139,10 @@ def flo_script(case):
     return "\n".join(L)
 
 
-def drv_line(case, mode):
+def drv_line(case, mode, start=0, nobs=None):
     """mode 'f': numbers as binary64 bit patterns; 'i': integers in 2^-10 units (None if not expressible)"""
+    if nobs is None:
+        nobs = case["nticks"]
     def tnum(text):
         if mode == "f":
             return bits(num(text))
@@ -111,7 +158,7 @@ def drv_line(case, mode):
         if not isinstance(n, int):
             raise ValueError(text)
         return str(n)
-    out = ["run" + mode, tnum(case["period"]), str(case["nticks"]), str(len(case["frames"]))]
+    out = ["run" + mode, tnum(case["period"]), str(start), str(nobs), str(len(case["frames"]))]
     for f in case["frames"]:
         verbs = fr_verbs(f)
         out.append("-" if fr_over(f) is None else str(fr_over(f)))
@@ -170,15 +217,18 @@ def verb_fires(v, elapsed, recurred):
     return all(holds(nd, elapsed, recurred) for nd in v[2])
 
 
-def check_trace(case, line):
+def check_trace(case, line, start=0, count=None, who="rd"):
+    """one instance of the timed framer, entered at tick `start` and observed for `count` ticks"""
     if line == "ERR build":
         return None if bad_build(case) else "a valid program did not build"
     if bad_build(case):
         return "a program with a dangling far frame built"
     toks = line.split()
-    n = case["nticks"]
+    n = case["nticks"] if count is None else count
     if len(toks) != n:
-        return "expected %d observations, got %d" % (n, len(toks))
+        return "%s: expected %d observations, got %d" % (who, n, len(toks))
+    if n == 0:
+        return None
     obs = []
     for t in toks:
         head, el, rc, now = t.split(":")
@@ -188,12 +238,14 @@ def check_trace(case, line):
     P = num(case["period"])
     # store stamp: 0, then one addition of the period per tick
     s = 0.0
+    for _ in range(start):
+        s += P
     for i, o in enumerate(obs):
         if o[4] != s:
-            return "tick %d: store stamp %r, expected %r" % (i, o[4], s)
+            return "%s tick %d: store stamp %r, expected %r" % (who, start + i, o[4], s)
         s += P
     if obs[0][:4] != (0, True, 0.0, 0):
-        return "start tick: expected F0 entered with elapsed 0 recurred 0, got %r" % (obs[0][:4],)
+        return "%s start tick %d: expected F0 entered with elapsed 0 recurred 0, got %r" % (who, start, obs[0][:4])
     e = 0                                            # tick of the last outline change
     entered_at = {0: 0}
     for i in range(1, n):
@@ -215,7 +267,7 @@ def check_trace(case, line):
             far = home + 1 if fired[0] in ("T", "R") or fired[1] == "next" else home if fired[1] == "me" else fired[1]
             want = (far, True, 0.0, 0)
         if obs[i][:4] != want:
-            return ("tick %d (frame F%d entered at tick %d): elapsed seen by the needs should be %r and recurred %d; "
+            return (who + " tick %d (frame F%d entered at tick %d): elapsed seen by the needs should be %r and recurred %d; "
                     "%s; expected (frame, changed, elapsed, recurred) = %r, implementation %r" % (
                         i, prev, e, el, rc, "verb %r fires" % (fired,) if fired else "no verb fires", want, obs[i][:4]))
         if fired is not None:
@@ -311,7 +363,18 @@ def gen_case(rng, tier):
                 over = rng.randrange(0, i)
             nested.append({"over": over, "verbs": verbs})
         frames = nested
-    return {"period": period, "nticks": nticks, "frames": frames}
+    case = {"period": period, "nticks": nticks, "frames": frames}
+    r = rng.random()
+    if r < 0.2:
+        host = [rng.choice([1, 2, 3])] if rng.random() < 0.5 else []
+        case["place"] = {"kind": "aux", "host": host, "at": rng.randrange(len(host) + 1)}
+    elif r < 0.5:
+        host = [rng.choice([1, 2, 3, 5])] if rng.random() < 0.6 else []
+        tags = [["w1", 0]]
+        if rng.random() < 0.6:
+            tags.append(["w2", rng.randrange(len(host) + 1)])
+        case["place"] = {"kind": "clone", "host": host, "tags": tags}
+    return case
 
 
 def gen_malformed(rng, tier):
@@ -345,8 +408,9 @@ class CHECK(core.Check):
                "for binary-exact periods and literals",
                "Lean's Float = IEEE binary64 add/sub/compare = CPython float (checked by this correspondence)",
                "literal conversion Convert2Num (C17), Need.Check beyond tolerance 0 (C21), the scheduler's tick loop (C02)"]
-    PARTIAL = ["model covers one framer (nested frames included: transitions of the active outline top down); "
-               "auxiliaries, conditional auxiliaries (which truncate / restore the outline without restarting the clock), framer periods other than every tick and the TypeError branch of updateTimer (store stamp "
+    PARTIAL = ["model covers one framer instance at a time (nested frames included; an auxiliary framer or a clone of a moot "
+               "framer is an instance entered at the tick its main frame is entered); auxiliaries nested inside the timed "
+               "framer itself, conditional auxiliaries (which truncate / restore the outline without restarting the clock), framer periods other than every tick and the TypeError branch of updateTimer (store stamp "
                "None, unreachable under the Skedder) are not modelled; on decimal periods only the Float instantiation "
                "is compared, the exact-time tick formula is proved for exact time only"]
     TECHNIQUE = "Lean 4 theorems over all programs and stamp sequences (induction on runs) + differential correspondence on generated FloScript"
@@ -359,7 +423,7 @@ class CHECK(core.Check):
                   "iterations), C11_verbs_desugar / C11_resolved_timeout_frame (timeout v = go next if elapsed >= abs v, "
                   "repeat v = go next if recurred >= int(abs v)), C11_lone_frame_transitions and C11_outer_transition_first "
                   "(nested frames: the transitions of the active outline apply top down, an over frame's timeout sees the "
-                  "clock that every inner transition restarts). Exact time (Int, Skedder stamps 0,P,2P,…, every P>0, every "
+                  "clock that every inner transition restarts). Exact time (Int, Skedder stamps 0,P,2P,…, instance entered at any tick s, every P>0, every "
                   "T): C11_elapsed_is_k_periods, C11_timeout_tick_exact, C11_first_multiple_is_ceil (transition tick = "
                   "max(1, ceil(T/P)) after entry). No _partial theorem. Tied to the code by building and running generated "
                   "FloScript with the real Builder/Skedder at binary-exact and decimal tick periods (Float instantiation "
@@ -367,8 +431,8 @@ class CHECK(core.Check):
     LEVEL_NOTE = ("Trusted: Lean kernel; axioms propext, Classical.choice, Quot.sound; hand transcription of framing.py "
                   "(restartTimer/updateTimer/restartCounter/updateCounter, enter, segue, precur), building.py "
                   "(buildTimeout/buildRepeat), needing.py Need.Check at tolerance 0, skedding.py stamp accumulation, "
-                  "validated only by the correspondence runs; Lean Float = IEEE binary64 = CPython float; one framer with "
-                  "nested frames (no auxiliaries, framer periods, TypeError branch of updateTimer); the ceil(T/P) tick formula "
+                  "validated only by the correspondence runs; Lean Float = IEEE binary64 = CPython float; one framer instance "
+                  "with nested frames, run as active framer, auxiliary framer or clone (no auxiliaries inside it, framer periods, TypeError branch of updateTimer); the ceil(T/P) tick formula "
                   "is proved in exact time only — at decimal periods the implementation follows the Float instantiation.")
 
     def generate(self, rng, n, tier):
@@ -389,6 +453,12 @@ class CHECK(core.Check):
                 out.append({"period": period, "nticks": 12, "origin": "exhaustive", "frames": [
                     {"over": None, "verbs": [["T", txt]]}, {"over": 0, "verbs": [["R", "2"]]},
                     {"over": 0, "verbs": [["G", 1, [["C", "ge", 2]]]]}, {"over": None, "verbs": [["G", 0, []]]}]})
+                # the same two frames run as an auxiliary framer and as two clones of a moot framer (the second
+                # clone is entered three ticks later): every instance has its own clocks
+                for place in ({"kind": "aux", "host": [], "at": 0},
+                              {"kind": "clone", "host": [3], "tags": [["w1", 0], ["w2", 1]]}):
+                    out.append({"period": period, "nticks": 12, "frames": [[["T", txt]], [["G", 0, []]]], "place": place, "origin": "exhaustive"})
+                    out.append({"period": period, "nticks": 12, "frames": [[["R", str(k)]], [["G", 0, []]]], "place": place, "origin": "exhaustive"})
                 if tier == "thorough":
                     for d in (2, 4, 8):
                         for sg in (-1, 1):
@@ -399,31 +469,42 @@ class CHECK(core.Check):
         return out
 
     def requests(self, case):
-        reqs = [drv_line(case, "f")]
-        if exact_ok(case):
-            reqs.append(drv_line(case, "i"))
+        reqs = []
+        for name, start, count in instances(case):          # the model's clocks are per framer instance
+            reqs.append(drv_line(case, "f", start, count))
+            if exact_ok(case):
+                reqs.append(drv_line(case, "i", start, count))
         return reqs
 
     def impl(self, case):
         text = flo_script(case)
+        insts = instances(case)
+        per = 2 if exact_ok(case) else 1
         sk = flob.build(text, float(case["period"]))
         if sk is None:
-            return ["ERR build"] * (2 if exact_ok(case) else 1)
-        rd = flob.framer_of(sk, "rd")
+            return ["ERR build"] * (per * len(insts))
         store = sk.houses[0].store
-        el = store.fetch("framer.rd.state.elapsed")
-        rc = store.fetch("framer.rd.state.recurred")
-        rows = []
+        watch = []
+        for name, start, count in insts:
+            fr = flob.framer_of(sk, name)
+            if fr is None:
+                return ["ERR no framer %s" % name] * (per * len(insts))
+            watch.append((fr, store.fetch("framer.%s.state.elapsed" % name), store.fetch("framer.%s.state.recurred" % name), []))
 
         def observe(st):
-            rows.append((int(rd.active.name[1:]), rc.value == 0, el.value, rc.value, st.stamp))
+            for fr, el, rc, rows in watch:
+                if fr.active is not None:                   # an aux / clone is only there while its main frame is
+                    rows.append((int(fr.active.name[1:]), rc.value == 0, el.value, rc.value, st.stamp))
         flob.run(sk, obs=observe, nticks=case["nticks"])
-        out = [" ".join("%d%s:%s:%d:%s" % (a, "*" if e else ".", bits(x), r, bits(now)) for a, e, x, r, now in rows)]
-        if exact_ok(case):
-            def units(x):
-                f = Fraction(x) * Q
-                return str(int(f)) if f.denominator == 1 else "inexact(%r)" % x
-            out.append(" ".join("%d%s:%s:%d:%s" % (a, "*" if e else ".", units(x), r, units(now)) for a, e, x, r, now in rows))
+
+        def units(x):
+            f = Fraction(x) * Q
+            return str(int(f)) if f.denominator == 1 else "inexact(%r)" % x
+        out = []
+        for fr, el, rc, rows in watch:
+            out.append(" ".join("%d%s:%s:%d:%s" % (a, "*" if e else ".", bits(x), r, bits(now)) for a, e, x, r, now in rows))
+            if per == 2:
+                out.append(" ".join("%d%s:%s:%d:%s" % (a, "*" if e else ".", units(x), r, units(now)) for a, e, x, r, now in rows))
         return out
 
     def oracle(self, case, out):
@@ -431,12 +512,21 @@ class CHECK(core.Check):
             return "no trace"
         if out[0].startswith("HARNESS-EXC"):
             return "implementation raised: " + out[0]
-        return check_trace(case, out[0])
+        per = 2 if exact_ok(case) else 1
+        insts = instances(case)
+        if len(out) != per * len(insts):
+            return "expected traces of %d instances, got %d lines" % (len(insts), len(out))
+        for k, (name, start, count) in enumerate(insts):      # the property holds for every instance
+            why = check_trace(case, out[k * per], start, count, name)
+            if why:
+                return why
+        return None
 
     def nontrivial(self, case, out):
         if not out or out[0].startswith(("ERR", "HARNESS")):
             return False
-        heads = [t.split(":")[0] for t in out[0].split()][1:]
+        per = 2 if exact_ok(case) else 1
+        heads = [t.split(":")[0] for line in out[::per] for t in line.split()[1:]]
         return any(h.endswith("*") for h in heads) and any(h.endswith(".") for h in heads)
 
     def bucket(self, case, out):
@@ -445,13 +535,24 @@ class CHECK(core.Check):
         kinds = set(v[0] for f in case["frames"] for v in fr_verbs(f))
         k = "+".join(sorted({"T": "timeout", "R": "repeat", "G": "go"}[x] for x in kinds))
         nested = any(fr_over(f) is not None for f in case["frames"])
-        return "%s,P=%s%s" % (k, case["period"], ",nested" if nested else "")
+        place = (case.get("place") or {"kind": "active"})["kind"]
+        return "%s,P=%s%s,%s" % (k, case["period"], ",nested" if nested else "", place)
 
     def shrink_candidates(self, case):
         def clone():
             return json.loads(json.dumps(case))
         if case["nticks"] > 2:
             c = clone(); c["nticks"] -= 1; yield c
+        pl = case.get("place")
+        if pl and pl["kind"] == "clone" and len(pl["tags"]) > 1:
+            c = clone(); c["place"]["tags"].pop(); yield c
+        if pl and pl.get("host"):
+            c = clone(); c["place"]["host"] = []
+            if "at" in c["place"]:
+                c["place"]["at"] = 0
+            for t in c["place"].get("tags", []):
+                t[1] = 0
+            yield c
         for i, f in enumerate(case["frames"]):
             verbs = fr_verbs(f)
             if fr_over(f) is not None:
